@@ -660,6 +660,26 @@ fn run_inner(t: &[&str]) -> Option<String> {
             let (s, f) = volute::verif_canon_sequences(n);
             return Some(format!("ok {} {}", show_nats(&s), show_nats(&f)));
         }
+        "canonused" => {
+            // the sequences actually walked by a canonization call (recording hook)
+            let kind = *t.get(1)?;
+            let n = us(t.get(2)?)?;
+            let l = Lut::zero(n);
+            let _ = volute::verif_last_sequences();
+            match kind {
+                "p" => {
+                    l.p_canonization();
+                }
+                "n" => {
+                    l.n_canonization();
+                }
+                _ => {
+                    l.npn_canonization();
+                }
+            }
+            let (s, f) = volute::verif_last_sequences();
+            return Some(format!("ok {} {}", show_nats(&s), show_nats(&f)));
+        }
         "s2d" => {
             let tab = parse_tab(t.get(1)?)?;
             return Some(with_static!(tab.n, s2d, &tab));
